@@ -131,7 +131,14 @@ pub fn parse_u64_digits<'a, Iter, const FORMAT: u128>(
     for &c in iter {
         let digit = char_to_valid_digit_const(c, radix as u32);
         if !*overflowed {
-            let result = mantissa.checked_mul(radix).and_then(|x| x.checked_add(digit as u64));
+            // NOTE: `num.exponent` assumes exactly `u64_step` digits were used
+            // for the mantissa, so never take more, even if they would fit
+            // (22 octal digits fit in 64 bits if the leading digit is 1).
+            let result = if *step == 0 {
+                None
+            } else {
+                mantissa.checked_mul(radix).and_then(|x| x.checked_add(digit as u64))
+            };
             if let Some(mant) = result {
                 *mantissa = mant;
             } else {
